@@ -818,6 +818,30 @@ class TxGen:
             tr.add_descriptor(nd)
         return 'descr create context-descriptor'
 
+    def tx_descr_update_context_staged(self):
+        """descriptor update (get_descriptor or entity write) of a context descriptor that owns context states in different
+        association stages, at least one of them unbound (UnbindingMdibVersion set): every state of the descriptor follows
+        the new DescriptorVersion and is listed in the UPDATE part"""
+        cands = [dh for dh in _handles(self.mdib, lambda d: d.is_context_descriptor)
+                 if any(s.UnbindingMdibVersion is not None for s in self.mdib.context_states.descriptor_handle.get(dh, []))]
+        if not cands:
+            # produce the stages first: a new associated state disassociates (unbinds) the previous ones
+            return self.tx_set_location() if self.rng.random() < 0.5 else self.tx_context_new()
+        dh = self.rng.choice(cands)
+        n = len(self.mdib.context_states.descriptor_handle.get(dh, []))
+        sc = self.rng.choice(list(self.pm_types.SafetyClassification))
+        if self.rng.random() < 0.5:
+            with self.mdib.descriptor_transaction() as tr:
+                tr.get_descriptor(dh).SafetyClassification = sc
+            how = 'get_descriptor'
+        else:
+            ent = self.mdib.entities.by_handle(dh)
+            ent.descriptor.SafetyClassification = sc
+            with self.mdib.descriptor_transaction() as tr:
+                tr.write_entity(ent)
+            how = 'write_entity'
+        return f'descr update context-staged {how} ({n} states)'
+
     def tx_touch_and_drop(self):
         """the application gets a state, writes into its nested objects and then drops it again (`unget_state`, or an
         exception leaves the with-block): the provider MDIB must not change for that state; with `unget` something else is
@@ -889,7 +913,7 @@ class TxGen:
             tr.write_entity(ent)
         return f'descr update context-clear {len(drop)}/{len(handles)}'
 
-    KINDS = (('tx_touch_and_drop', 2), ('tx_empty', 2), ('tx_descr_context_clear', 1), ('tx_descr_delete_context', 1), ('tx_descr_restore_context', 2), ('tx_metric', 5), ('tx_string_metric', 1), ('tx_alert', 3), ('tx_component', 2), ('tx_operational', 2),
+    KINDS = (('tx_descr_update_context_staged', 2), ('tx_touch_and_drop', 2), ('tx_empty', 2), ('tx_descr_context_clear', 1), ('tx_descr_delete_context', 1), ('tx_descr_restore_context', 2), ('tx_metric', 5), ('tx_string_metric', 1), ('tx_alert', 3), ('tx_component', 2), ('tx_operational', 2),
              ('tx_rt', 2), ('tx_context_new', 3), ('tx_context_update', 3), ('tx_context_delete', 1), ('tx_set_location', 2),
              ('tx_descr_update', 5), ('tx_descr_create', 4), ('tx_descr_delete', 3))
 
@@ -2675,6 +2699,31 @@ def scenario_touch_and_drop(world, rng):
     return rec.hist, [('reload', 0, 0, [])] + [('deliver', i) for i in w]
 
 
+def scenario_context_stages_descriptor_update(world, rng):
+    """context descriptors whose states are in different association stages (associated, disassociated with
+    UnbindingMdibVersion, not associated) get descriptor updates through get_descriptor and through write_entity"""
+    gen = TxGen(world, rng)
+    rec = HistoryRecorder(world)
+    mdib = world.mdib
+    pat = _first(mdib, 'PatientContextDescriptor')
+
+    def new_pat(assoc):
+        def fn():
+            with mdib.context_state_transaction() as tr:
+                if assoc:
+                    tr.disassociate_all(pat)
+                st = tr.mk_context_state(pat, gen._new_handle('scn_stage'), set_associated=assoc)  # noqa: SLF001
+                st.CoreData.Givenname = 'stage'
+            return 'context new pat'
+        return fn
+    w = rec.tx(gen.tx_set_location) + rec.tx(gen.tx_set_location) + rec.tx(new_pat(True)) + rec.tx(new_pat(True)) + \
+        rec.tx(new_pat(False))
+    for _ in range(6):
+        w += rec.tx(gen.tx_descr_update_context_staged)
+    w += rec.tx(gen.tx_context_update)
+    return rec.hist, [('reload', 0, 0, [])] + [('deliver', i) for i in w]
+
+
 def scenario_instance_ids(world, rng):
     """provider InstanceId 0, absent, 7: the version group of the reports has to equal the one of the Get answers; the
     consumer follows after a load in each epoch"""
@@ -2716,7 +2765,8 @@ def scenario_provider_observers(world, rng):
     return rec.hist, [('reload', 0, 0, [])] + [('deliver', i) for i in w]
 
 
-SCENARIOS_BURST = (scenario_inflight_burst, scenario_instance_ids, scenario_provider_observers, scenario_touch_and_drop)
+SCENARIOS_BURST = (scenario_inflight_burst, scenario_instance_ids, scenario_provider_observers, scenario_touch_and_drop,
+                   scenario_context_stages_descriptor_update)
 SCENARIOS_TWO_MDS = (scenario_two_mds_interleaved,)
 SCENARIO_SETS = {'main': (False, 'SCENARIOS'), 'two_mds': (True, 'SCENARIOS_TWO_MDS'), 'burst': (False, 'SCENARIOS_BURST')}
 
